@@ -218,8 +218,8 @@ pub fn run(seed: u64, ntraces: usize) {
                              "operator": p.operator, "dispatcher": hx(p.caller.as_bytes()), "pay": p.pay, "key": p.key});
             } else if k < 18 {
                 let mut caller = anyone.clone();
-                let (mut tk, mut nonce) = match r.below(7) { 0 => (b"EGLD".to_vec(), 0u64), 1 => (tok2.clone(), 0), 2 => (sft.clone(), 5), 3 => (sft.clone(), 6), 4 => (sft.clone(), 0), _ => (tok.clone(), 0) };
-                if !credited.is_empty() && (matches!(forced, Some(("refund", _, _, _))) || r.chance(2, 3)) { let (cu, ct, cn) = if forced.is_some() { credited.last().unwrap().clone() } else { r.pick(&credited).clone() }; caller = cu; tk = ct; nonce = cn; if forced.is_none() && r.chance(1, 6) { caller = anyone.clone(); } }
+                let (mut tk, mut nonce) = match r.below(9) { 0 => (b"EGLD".to_vec(), 0u64), 1 => (tok2.clone(), 0), 2 => (sft.clone(), 5), 3 => (sft.clone(), 6), 4 => (sft.clone(), 0), 5 => (b"EGLD".to_vec(), 7), 6 => (tok.clone(), 3), _ => (tok.clone(), 0) };
+                if !credited.is_empty() && (matches!(forced, Some(("refund", _, _, _))) || r.chance(2, 3)) { let (cu, ct, cn) = if forced.is_some() { credited.last().unwrap().clone() } else { r.pick(&credited).clone() }; caller = cu; tk = ct; nonce = cn; if forced.is_none() && r.chance(1, 6) { caller = anyone.clone(); } if forced.is_none() && r.chance(1, 5) { nonce = cn + 1 + r.below(7); } }
                 let mut arg = nested_buf(&tk); arg.extend_from_slice(&nonce.to_be_bytes());
                 step = w.call0(&caller, &gov, "withdrawRefundToken", vec![arg]);
                 opj = json!({"op": "withdrawRefund", "caller": hx(caller.as_bytes()), "token": hx(&tk), "nonce": nonce});
